@@ -58,6 +58,8 @@ struct Plan {
     /// caller: pause (ms) between the read that reported the end of the body and the reads after it
     /// (long enough to cross the overall deadline: the response still completed before it)
     think_after_end_ms: Option<u64>,
+    /// the whole response (and the peer's FIN) is on the client's host at t~0; the caller's first read comes after the deadline
+    late_first_read: bool,
     /// where the time limits are configured: 0 = on the request, 1 = on the session the request is made
     /// from, 2 = loose limits on the session, the real ones on the request (which must win)
     limits_on: u8,
@@ -147,6 +149,7 @@ fn gen(g: &mut G, thorough: bool) -> Plan {
         upload: 0,
         think: Vec::new(),
         think_after_end_ms: None,
+        late_first_read: false,
         host_v6: false,
         t_duration_max: false,
         limits_on: match g.below(6) {
@@ -246,6 +249,19 @@ fn gen(g: &mut G, thorough: bool) -> Plan {
                 p.body.faults.clone_fails = true;
                 p.phase = "socket-clone-fails";
                 g.probe("socket-clone-fails-while-setting-up-the-watchdog");
+            }
+            // (drawn after everything else) the caller takes the response from send() and comes back for the body
+            // only after the deadline.  The response - head, body and the peer's FIN - reached the client in one
+            // piece at t~0, long before the deadline; nothing more is needed from the peer
+            if !p.fd_exhausted && !megabytes_idle && p.route == Route::Plain && p.t_ms.is_some() && p.body.wire.bytes.len() <= 4096 && g.chance(1, 8) {
+                let mut sc = Script::default();
+                sc.acts.push(Act::Send(p.body.wire.bytes.clone()));
+                sc.acts.push(Act::Fin);
+                p.scripts = vec![sc];
+                p.think = vec![(0, p.t_ms.unwrap() + 1 + g.below(5_000))];
+                p.think_after_end_ms = None;
+                p.late_first_read = true;
+                g.probe("first-read-after-the-deadline-of-a-response-that-arrived-whole");
             }
         }
         Family::Stall | Family::Drip => {
@@ -913,8 +929,17 @@ fn oracle(p: &Plan, o: &Obs, h: &History, seen: &Seen, g: &mut G) -> Verdict {
                         if ended {
                             g.probe("read-after-end-of-body");
                         }
+                        // the history in which the caller had not yet asked for the body when the deadline passed has a
+                        // name of its own; with close-delimited framing it is D23 of known_findings.json
+                        let when = if ended {
+                            "after-end"
+                        } else if p.late_first_read {
+                            "first-read-after-the-deadline"
+                        } else {
+                            "before-end"
+                        };
                         return violation(
-                            format!("{}:{}:{:?}:{}", cls, k, p.body.framing, if ended { "after-end" } else { "before-end" }),
+                            format!("{}:{}:{:?}:{}", cls, k, p.body.framing, when),
                             format!(
                                 "{} #{} at t={}ms failed with {} although the response completed long before the deadline (T={:?}ms, start={}ms); {} of {} body bytes had been read, end-of-body seen: {}",
                                 c.what,
